@@ -228,7 +228,7 @@ def inject_file(ctx, tag, ops):
         known_class = gt[0] == "FAIL" and gt[1] in ("idempotent-podports-user-proxy-ports", "idempotent-sidecar-env-order-cluster-vars",
                                                     "cronjob-pod-template-annotations-ignored")
         # clauses only the Go oracle can see (labels / env values are digests in the reduced pods)
-        go_only = gt[0] == "FAIL" and gt[1] in ("network-label", "network-env", "path-env", "injected-annotations", "status-fields", "preserve-ephemeral")
+        go_only = gt[0] == "FAIL" and gt[1] in ("network-label", "network-env", "path-env", "injected-annotations", "status-fields", "template-funcs")
         if lt[:2] != gt[:2] and not (known_class and lt[0] == "FAIL") and not go_only:
             ctx.tie_broken("monitor-vs-oracle:inject",
                            "the Lean monitor and the Go oracle judge the same run differently: lean=%r oracle=%r" % (lean_v, go_v),
@@ -250,7 +250,8 @@ def inject_file(ctx, tag, ops):
     if tag == "generated":
         for base, (n_cases, n_inj) in sorted(per_base.items()):
             ctx.count("inject.injected.%s" % base, n_inj)
-            if n_cases >= 20 and n_inj < 5:
+            # (chart-sel decides with policy disabled: only pods its always-selector or their own label asks for are injected)
+            if n_cases >= 20 and n_inj < (1 if base == "chart-sel" else 5):
                 ctx.tie_broken("inject-coverage",
                                "rendering %s: only %d of %d cases were injected" % (base, n_inj, n_cases), {"stream": "inject"})
                 ok = False
@@ -297,7 +298,7 @@ def run(ctx):
                 "decide: random concrete pods (0-4 labels, inject label/annotation from 12 values, 12 namespaces, hostNetwork) and configs "
                 "(10 policy strings, 0-2 never / always selectors with matchLabels and In/NotIn/Exists/DoesNotExist/invalid expressions, "
                 "invalid keys/values, empty selectors), each evaluated again after randomising fields outside the listed inputs; "
-                "inject: every fixture document of pkg/kube/inject/testdata/inject under each of 23 chart renderings through the webhook and, "
+                "inject: every fixture document of pkg/kube/inject/testdata/inject under each of 24 chart renderings through the webhook and, "
                 "rotating, under webhook-config / URL-path / API-defaulting / HTTP-handler modifiers, and through IntoObject; generated pods "
                 "(1-6 containers, probes, lifecycle handlers, ports, init containers, native sidecars, ephemeral containers, 8 volume kinds, user "
                 "istio-proxy / istio-init / istio-validation / enable-core-dump, overrides annotation, ~45 steering annotations, labels outside "
@@ -329,10 +330,11 @@ def run(ctx):
         "pods in one of the two registered known-finding classes (about 7% of the injected pods of a run: cluster/network variables plus a "
         "post-processed variable, resp. a user istio-proxy with ports) are judged for idempotence only through the exact prediction of "
         "that class (harness knownClass); for them the Lean monitor only says `idempotent <component>`",
-        "ephemeral containers and everything of a user container outside name/image/command/args/ports are covered by idempotence digests "
-        "and by Go-oracle-only clauses (preserve-ephemeral), not by the Lean Preserves predicate",
+        "everything of a user container outside name/image/command/args/ports is covered by idempotence digests only; ephemeral containers "
+        "are judged by the Lean monitor as well (clause preserve-ephemeral, judge_ok_ephemeral_preserved)",
         "not exercised: OpenShift UID block, DetectNativeSidecar from node versions, ProxyConfig CRs, config/mesh reload through the watcher, "
-        "template functions env / applicationPorts (no shipped template calls them), openshift profile",
+        "openshift profile (the template functions env / applicationPorts and the ProxyUID/GID fields are rendered through the harness' own "
+        "`verif` template of rendering `funcs`, with the defaults only: GetProxyIDs never sees a namespace)",
     ]
     ctx.trusted.append("pkg/kube/inject/zz_verif_c19.go (verif-tagged accessors: VerifInjectRequired, VerifNewWebhook, VerifInject, VerifInjectPod)")
     ctx.trusted.append("harness/c19 realisation of abstract rows as real Pod/Config objects and reduction of injected pods to the monitor's line form")
@@ -442,7 +444,7 @@ MANIFEST = {
                    "workload kind must be skipped iff the documented "
                    "decision says so (judge_decision_checked; missing decision inputs fail), refusals must be predicted, bad patches and unloadable "
                    "configurations fail, the status annotation must be a truthful record (statusTruthfulB_iff). Idempotence / preservation: "
-                   "both paths are run once and twice on every pod fixture under 23 renderings (incl. the setFlags/mesh entries of the package's "
+                   "both paths are run once and twice on every pod fixture under 24 renderings (incl. the setFlags/mesh entries of the package's "
                    "own TestInjection: OTel semconv, mesh TPROXY, mesh status port, multus, mtls certs, mesh proxyMetadata) x webhook-config / inject-path / "
                    "API-defaulting variants and on generated pods; Lean monitors proved sound and complete (preservesB_iff, idempotentB_iff, "
                    "judge_*_sound/complete) judge the reduced pods, a Go oracle judges the full objects. Ten defects found this way were "
